@@ -39,6 +39,19 @@ def gen():
                     f.write('\n\ndef %s%s(k: int, a: int, b: int, on_clause: bool, using: bool) -> int:\n    """\n    pre: 0 <= k < %d and %d <= a < %d and 0 <= b < %d and a != b\n    post: %s\n    """\n'
                             '    return step_frame(%d, k, a, b, on_clause, using)\n' % (name, suffix, len(c14lib.FRAME_SHAPES), lo, hi, na, post, fr))
                 specs.append((name, ('frame', fr), None))
+        if os.environ.get('VERIF_C14_DEEP') == '1':
+            # thorough tier: the 3-slot shapes on every frame too (first atom fixed per condition)
+            f.write('from harness.c14lib import step\n')
+            for fr in range(1, c14lib.NF):
+                for sh, (tmpl, _top) in enumerate(c14lib.SHAPES):
+                    if '{C}' not in tmpl:
+                        continue
+                    for fa in range(na):
+                        name = 'fr3_%d_%d_a%d' % (fr, sh, fa)
+                        for suffix, post in (('', '_ == 0'), ('_reach', 'False')):
+                            f.write('\n\ndef %s%s(b: int, c: int, on_clause: bool, using: bool) -> int:\n    """\n    pre: 0 <= b < %d and 0 <= c < %d and b != c and b != %d and c != %d\n    post: %s\n    """\n'
+                                    '    return step(%d, %d, b, c, on_clause, using, False, %d)\n' % (name, suffix, na, na, fa, fa, post, sh, fa, fr))
+                        specs.append((name, ('frame3', fr, sh, fa), None))
     return path, specs
 
 
@@ -46,6 +59,15 @@ def mk_replay(sh, fa=None):
     def replay(args):
         from harness import c14lib
         import re
+        if isinstance(sh, tuple) and sh[0] == 'frame3':
+            _, fr, sh3, fa3 = sh
+            try:
+                pr, info = c14lib.leaf(sh3, fa3, int(args['b']), int(args['c']), bool(args['on_clause']), bool(args['using']), False, fr)
+            except Exception as e:  # noqa
+                pr, info = ['check crashed %r' % e], {}
+            pr = pr + ['undecided: ' + x for x in info.get('undecided', ())]
+            cls = re.sub(r"'[^']*'|\d+|\{.*?\}|\[.*?\]", '#', pr[0])[:60] if pr else ''
+            return bool(pr), dict(info, problems=pr[:4]), 'table-model-join:%s:%s' % (c14lib.FRAMES[fr]['name'], cls), '%s: %s' % (info.get('sql'), pr[0] if pr else '')
         if isinstance(sh, tuple):
             fr = sh[1]
             k, a, b = int(args['k']), int(args['a']), int(args['b'])
@@ -78,6 +100,7 @@ def mk_replay(sh, fa=None):
 def run(tier):
     run = Run('C14', tier)
     from harness import c14lib
+    os.environ['VERIF_C14_DEEP'] = '1' if tier == 'thorough' else '0'
     path, gspecs = gen()
     run.bounds = {'frames': [f_['name'] for f_ in c14lib.FRAMES], 'where_shapes': [s[0] for s in c14lib.SHAPES], 'atoms': [a[0] for a in c14lib.ATOMS],
                   'options': 'ON clause present/absent, USING present/absent, model written first/second'}
@@ -96,7 +119,10 @@ def replay(path):
     print(json.dumps(r, indent=1))
     import re
     h = r['replay']['harness']
-    if h.startswith('fr_'):
+    if h.startswith('fr3_'):
+        _, fr, sh3, fa3 = h.split('_')
+        rep, info, key, what = mk_replay(('frame3', int(fr), int(sh3), int(fa3[1:])))(r['replay']['args'])
+    elif h.startswith('fr_'):
         rep, info, key, what = mk_replay(('frame', int(h.split('_')[1])))(r['replay']['args'])
     else:
         m = re.match(r'tm_shape(\d+)(?:_a(\d+))?', h)
